@@ -177,35 +177,52 @@ def run(R):
         R.check(len(ap) == 1, 'C15.R4', 'alpn-read', site(cn), 'alpn_protocol() sites: %d' % len(ap))
         # Ok is reachable only through the edge "alpn == Some(h2)" or the edge "assume_http2 == true"
         okret = [bb for bb, i, p, a, ops in mirlib.aggregates(cn, 'result::Result', 'Ok') if p['l'] == 0]
-        cmp_calls = [(bb, t) for bb, t in cn.calls(name='eq') + cn.calls(name='ne') if term_contains(cn.origin(t['args'][0]), lambda x: is_call(x, name='alpn_protocol')) or term_contains(cn.origin(t['args'][1]), lambda x: is_call(x, name='alpn_protocol'))]
-        okc = False
-        pass_edges = set()
-        for bb, t in cmp_calls:
-            sides = [strip_refs(cn.origin(a)) for a in t['args']]
-            other = [x for x in sides if not term_contains(x, lambda y: is_call(y, name='alpn_protocol'))]
-            okc = bool(other) and other[0][0] == 'agg' and other[0][1].get('variant') == 'Some' and mentions_constdef(other[0], 'ALPN_H2')
-            sw = mirlib.follow_to_switch(cn, t['t'])
-            for tgt, vals in cn.switch_edges(sw).items():
-                truth = (vals == ['else'] or (0 not in vals and 'else' not in vals))
-                matches = truth if t['name'] == 'eq' else not truth
-                if matches:
-                    pass_edges.add((sw, tgt))
-        R.check(len(cmp_calls) == 1 and okc, 'C15.R4', 'compares-with-Some(h2)', site(cn), 'alpn_protocol() is compared with Some(ALPN_H2) — None (no ALPN negotiated) does not match: %r' % okc)
-        for s_ in [bb for bb in cn.live_blocks() if cn.term(bb)['k'] == 'switch' and field_names(cn.origin(cn.term(bb)['on']))[-1:] == ['assume_http2']]:
-            for tgt, vals in cn.switch_edges(s_).items():
-                if vals == ['else'] or (0 not in vals and 'else' not in vals):
-                    pass_edges.add((s_, tgt))
-        for s_ in [bb for bb in cn.live_blocks() if cn.term(bb)['k'] == 'switch']:
-            o_ = cn.origin(cn.term(s_)['on'])
-            if o_[0] == 'un' and o_[1] == 'Not' and field_names(o_[2])[-1:] == ['assume_http2']:
-                for tgt, vals in cn.switch_edges(s_).items():
-                    if vals == [0]:
-                        pass_edges.add((s_, tgt))
+        # by feasible path from the alpn_protocol() read to an Ok return: the path asserts "alpn == Some(h2)" or "assume_http2"
+        is_alpn = lambda t_: term_contains(t_, lambda x: is_call(x, name='alpn_protocol'))
+        is_h2 = lambda t_: mentions_constdef(t_, 'ALPN_H2')
+        meta = {}
         start = ap[0][0] if ap else 0
-        reach = cn.reachable(start, removed_edges=pass_edges)
-        leaked = [bb for bb in okret if bb in reach]
-        R.check(bool(okret) and bool(pass_edges) and not leaked, 'C15.R4', 'ok-requires-h2-or-opt-out', site(cn, leaked[0]) if leaked else site(cn),
-                'with the edges "alpn == Some(h2)" and "assume_http2" removed the Ok return is unreachable: %r (pass edges %d)' % (not leaked, len(pass_edges)))
+        rows = mirlib.path_rows(cn, start=start, stop=set(okret), meta=meta, limit=200000)
+        terms = meta.get('__terms__', {})
+        nok = 0
+        seen_cmp = False
+        for cons, path in rows:
+            if path[-1] not in okret:
+                continue
+            nok += 1
+            h2 = False
+            opt = False
+            some = False
+            for subj, op, v in cons:
+                t_ = terms.get(subj)
+                if t_ is None:
+                    continue
+                truth = (op == '==' and v not in (0, False)) or (op == '!=' and v in (0, False)) or (op == 'notin' and 0 in v)
+                falsy = (op == '==' and v in (0, False)) or (op == '!=' and v not in (0, False))
+                neg = False
+                u_ = t_
+                while u_ and u_[0] == 'un' and u_[1] == 'Not':
+                    u_ = u_[2]; neg = not neg
+                val_true = (truth and not neg) or (falsy and neg)
+                c_ = strip_refs(u_)
+                if is_call(c_) and c_[3] in ('eq', 'ne') and len(c_[2]) == 2:
+                    sides = [strip_refs(x) for x in c_[2]]
+                    want = val_true if c_[3] == 'eq' else ((falsy and not neg) or (truth and neg))
+                    whole = any(is_call(x, name='alpn_protocol') for x in sides) and any(x[0] == 'agg' and x[1].get('variant') == 'Some' and is_h2(x) for x in sides)
+                    payload = any(term_contains(x, lambda y: y and y[0] == 'variant' and y[2] == 'Some' and is_call(strip_refs(y[1]), name='alpn_protocol')) for x in sides) and any(is_h2(x) and not is_alpn(x) for x in sides)
+                    if whole or payload:
+                        seen_cmp = True
+                    if want and whole:
+                        h2 = True
+                    if want and payload:
+                        h2 = True  # the payload only exists on the Some arm
+                elif u_[0] == 'discr' and is_call(strip_refs(u_[1]), name='alpn_protocol'):
+                    pass
+                elif field_names(u_)[-1:] == ['assume_http2'] and val_true:
+                    opt = True
+            R.check(h2 or opt, 'C15.R4', 'ok-requires-h2-or-opt-out', site(cn, path[-1]), 'a path to Ok asserts alpn_protocol() == Some(h2) (%r) or assume_http2 (%r)' % (h2, opt))
+        R.check(seen_cmp, 'C15.R4', 'compares-with-Some(h2)', site(cn), 'alpn_protocol() is compared with Some(ALPN_H2) — None (no ALPN negotiated) does not match: %r' % seen_cmp)
+        R.floor('C15.R4', 'paths to Ok after the ALPN read', nok, 2)
         h2e = [x for x in mirlib.aggregates(cn) if x[3].get('variant') == 'H2NotNegotiated']
         R.check(len(h2e) == 1, 'C15.R4', 'error-kind', site(cn), 'TlsError::H2NotNegotiated sites: %d' % len(h2e))
 
